@@ -7,7 +7,7 @@ import (
 
 func init() {
 	register("C02", func(rc *Run) error {
-		return genEvalCheck(rc, "Gen_Assign", "INVARIANTS PutGet GetPut PutPut Frame", []string{"PutGet", "GetPut", "PutPut", "Frame"}, 1)
+		return genEvalCheck(rc, "Gen_Assign", "INVARIANTS PutGet GetPut PutPut Frame WithLaw", []string{"PutGet", "GetPut", "PutPut", "Frame", "WithLaw"}, 1)
 	})
 }
 
